@@ -33,3 +33,16 @@ func VerifC14_XidFourThreads() {
 	}
 	vr.Threads(4, c14draw, "xids-pairwise-distinct")
 }
+
+// ids drawn on different paths — the hello constructor on one thread, the header generator on the
+// others — come from the same sequence: no two are equal under any interleaving
+func VerifC14_XidHelloAndGenerator() {
+	helloThread := vr.Choice("hello-thread", 2)
+	vr.ThreadsIdx(2, func(i int) uint32 {
+		if i == helloThread {
+			h, _ := NewHello(4)
+			return h.Xid
+		}
+		return c14draw()
+	}, "xids-pairwise-distinct")
+}
